@@ -120,6 +120,8 @@ def validate(ctx, mods: list[str], ex: Exploration, per_fn: int = 60) -> None:
     rng = ctx.rng
     lines, meta = [], []
     for m in mods:
+        if m not in translate_spec.SPEC:      # e.g. "Routes" (Gen/Routes.lean): tied by glue theorems, no Python callable
+            continue
         item = translate_spec.SPEC[m]
         pymod = importlib.import_module(item["file"][:-3].replace("/", "."))
         src = (translate_spec_path(item["file"])).read_text()
